@@ -101,6 +101,25 @@ def fd (den : Nat) (t : Table) (n : Nat) (c dx : K) (f : Nat → K) : Nat → K 
 
 end
 
+section
+variable {K : Type} [Mul K] [Div K] [NatCast K]
+
+/-- `dx ^ k` by repeated multiplication (core Lean only) -/
+def powN (dx : K) : Nat → K
+  | 0 => ((1 : Nat) : K)
+  | k + 1 => powN dx k * dx
+
+/-- ROUND 6: `finite_diff` with the epilogue scaling READ from the source (`Gen.dxScale`:
+`out /= dx` is `(true, 1)`): stencil values (numerators over `den`), then divided / multiplied by
+`dx ^ k`.  Executed by the driver's `fd` / `mat` ops. -/
+def fdBy {K : Type} [Add K] [Mul K] [Div K] [OfNat K 0] [IntCast K] [NatCast K]
+    (scale : Bool × Nat) (den : Nat) (t : Table) (n : Nat) (c dx : K) (f : Nat → K) : Nat → K :=
+  fun i =>
+    let v := fdNum t n c f i / (den : K)
+    if scale.1 then v / powN dx scale.2 else v * powN dx scale.2
+
+end
+
 inductive Err | value | index
   deriving DecidableEq, Repr
 
